@@ -194,10 +194,6 @@ func (g *gen) next(w *world) []string {
 			add(misuse/2, "ext", e, "initerror", "notype")
 		}
 		add(fault, "exit", e, []string{"0", "1", "sig9"}[g.r.Intn(3)])
-		if !liveRt && callers > 0 && g.registered[e] {
-			// the runtime process is gone (killed by a reset under way): another local process polls the Runtime API
-			add(misuse, "rt", "next", "via="+e)
-		}
 	}
 	if liveRt {
 		for _, n := range g.ints {
